@@ -287,7 +287,17 @@ def wrappers(chk):
     a = alloc_table(src.func(BP, 'unpack_pids'))
     b = alloc_table(src.func(BP, 'empty_bitpacked_arrays'))
     common = sorted(set(a) & set(b))
-    if len(common) < 5:
+    # one wrapper may delegate its allocation to the other: then there is a single table and nothing to disagree
+    up = src.func(BP, 'unpack_pids')
+    delegates = [n for n in walk_no_nested(up) if isinstance(n, ast.Call) and dotted(n.func) == 'empty_bitpacked_arrays']
+    if not a and len(b) >= 5 and delegates:
+        kw = {k.arg: unparse(k.value) for k in delegates[0].keywords}
+        okd = kw.get('float_dtype') == 'float_dtype' and len(delegates[0].args) >= 2 and unparse(delegates[0].args[0]) == 'N'
+        chk.check(okd, 'C04-R7', BP, 'unpack_pids/empty_bitpacked_arrays', 'allocation tables agree', 'unpack_pids allocates through empty_bitpacked_arrays(N, <requested>, float_dtype=float_dtype)',
+                  f'unpack_pids delegates allocation with arguments {[unparse(x) for x in delegates[0].args]} {kw}', node=delegates[0])
+        a = dict(b)
+        common = sorted(b)
+    elif len(common) < 5:
         raise AnalysisError(f'allocation tables not recognised: {sorted(a)} / {sorted(b)}')
     diff = {k: (a[k], b[k]) for k in common if a[k] != b[k]}
     chk.check(not diff, 'C04-R7', BP, 'unpack_pids/empty_bitpacked_arrays', 'allocation tables agree',
